@@ -102,14 +102,29 @@ def run_symx(mod, mod_name, prop, args, seed):
                 _print_cell(results[-1])
     else:
         ctxm = mp.get_context('fork')
+        deadline = t0 + float(os.environ.get('VERIF_DEADLINE_S', '1500' if args.tier == 'quick' else '10800'))
         with ctxm.Pool(args.j, maxtasksperchild=8) as pool:
-            for r in pool.imap_unordered(_worker, [(mod_name, c) for c in cells], chunksize=1):
+            it = pool.imap_unordered(_worker, [(mod_name, c) for c in cells], chunksize=1)
+            done_ids = set()
+            while len(results) < len(cells):
+                try:
+                    r = it.next(timeout=max(1.0, deadline - time.time()))
+                except mp.TimeoutError:
+                    pool.terminate()
+                    break
+                except StopIteration:
+                    break
                 results.append(r)
+                done_ids.add(r['id'])
                 if args.v:
                     _print_cell(r)
+            unfinished = [c['id'] for c in cells if c['id'] not in done_ids]
     cell_by_id = {c['id']: c for c in cells}
     known = load_known()
     violations, known_hits, inconclusive = [], {}, []
+    if args.j > 1 and len(cells) > 1 and unfinished:
+        inconclusive.append({'why': f"wall-clock budget of the check exhausted with {len(unfinished)} cell(s) unfinished",
+                             'cells': unfinished[:10]})
     boundary_only = []
     n_div = 0
     n_inc_known = 0
